@@ -58,7 +58,8 @@ pub fn c01(a: &Args) -> CaseSet {
         let vars = sorted_vars(&ch);
         let want = ref_chain(&ch, &tb, &vars);
         let nv = vars.len();
-        let qs = vec![Query::Vars, Query::Eval(nv)];
+        // every other case also through the consuming evaluation (eval_vec / eval_iter)
+        let qs = if i % 2 == 0 { vec![Query::Vars, Query::Eval(nv), Query::EvalVec(nv)] } else { vec![Query::Vars, Query::Eval(nv)] };
         let prog = if i % 3 == 0 { Prog::FlatWo(text.clone()) } else { Prog::Flat(text.clone()) };
         let (tb2, want2, vars2, qs2) = (tb.clone(), want.clone(), vars.clone(), qs.clone());
         cs.add(&tb, prog, qs, text, "random-tree", n_operands(&ch), move |obs| expect_value(&tb2, &want2, &vars2, obs, &qs2));
@@ -581,6 +582,21 @@ pub fn c07(a: &Args) -> CaseSet {
         let pos = *r.pick(&boundaries);
         for ins in ["(", ")"] { let mut t: String = chars[..pos].iter().collect(); t.push_str(ins); t.extend(chars[pos..].iter()); damaged.push(("insert-paren", t)); }
         for ins in ["\\", "$", "?", "\u{7}", "»", "\t", "\n", "\u{a0}", "\u{2003}", "\u{3000}", "\u{85}"] { let mut t: String = chars[..pos].iter().collect(); t.push_str(ins); t.extend(chars[pos..].iter()); damaged.push(("insert-illegal-char", t)); }
+        // characters just outside the identifier and digit ranges (and letters, digits, marks of other scripts), at ANY
+        // position outside braces: directly behind a name, inside a number, inside an operator name
+        {
+            let outside: Vec<usize> = (0..=chars.len()).filter(|&p| { let before: String = chars[..p].iter().collect(); before.matches('{').count() == before.matches('}').count() }).collect();
+            let behind_name: Vec<usize> = outside.iter().copied().filter(|&p| p > 0 && (chars[p - 1].is_alphanumeric() || chars[p - 1] == '_')).collect();
+            let pool: Vec<&str> = ["\u{663}", "\u{ff11}", "\u{96b}", "\u{e9}", "\u{436}", "\u{df}", "\u{ff41}", "\u{b2}", "\u{301}", "\u{200d}", "\u{200b}", "\u{feff}", "\u{2135}", "\u{b7}", "\u{b5}",
+                "\u{3b0}", "\u{3ca}", "\u{390}", "\u{3aa}", "\u{3d1}", "@", "[", "`", ":", "~", "\u{7f}", "\u{0}", "\u{661}\u{662}", "\u{10d7a0}", "\u{1d7d8}"]
+                .into_iter().filter(|c| !tb.iter().any(|o| o.repr.contains(*c))).collect();
+            for k in 0..3 {
+                let from = if k < 2 && !behind_name.is_empty() { &behind_name } else { &outside };
+                let p = *r.pick(from); let ins = *r.pick(&pool);
+                let mut t: String = chars[..p].iter().collect(); t.push_str(ins); t.extend(chars[p..].iter());
+                damaged.push((if k < 2 { "insert-foreign-char-behind-name" } else { "insert-foreign-char-anywhere" }, t));
+            }
+        }
         let binops: Vec<&OpSpec> = tb.iter().filter(|o| o.bin.is_some()).collect();
         damaged.push(("append-binop", format!("{plain} {}", r.pick(&binops).repr)));
         // two damages whose effects on the operand/operator count cancel: an extra operand AND a trailing operator
@@ -1162,6 +1178,46 @@ pub fn c05(a: &Args) -> CaseSet {
                 }
             });
         } }
+    }
+    // chains of unary operators with a sign inside (the rules of cos, acos and the unary minus negate an expression; the
+    // outer derivative strips the latest unary operator): every total-domain function over a negated argument, in call and
+    // juxtaposition form, first and second order, flat and deep
+    {
+        let us = ["sin", "cos", "tan", "exp", "sinh", "cosh", "tanh", "atan", "-", "+"];
+        let mut texts: Vec<String> = vec![];
+        for u1 in us { for form in 0..7 { texts.push(match form { 0 => format!("{u1}(-x)"), 1 => format!("{u1} -x"), 2 => format!("{u1}(-(x*0.7))"), 3 => format!("-{u1}(-x)*y"), 4 => format!("{u1}(+-x)"), 5 => format!("{u1}(-x*y)"), _ => format!("{u1}(-+x)+{u1} - x") }); }
+            for u2 in us { texts.push(format!("{u1}({u2}(-x))")); texts.push(format!("{u1} {u2} -x")); texts.push(format!("{u1}(-{u2}(0.6*x))*x")); } }
+        let take = if a.thorough { texts.len() } else { 90 };
+        let mut order: Vec<usize> = (0..texts.len()).collect(); for i in (1..order.len()).rev() { let j = r.below(i + 1); order.swap(i, j); }
+        for &ti in order.iter().take(take) {
+            let text = &texts[ti];
+            set_table(&tb);
+            use exmex::Express;
+            let Ok(fx) = FE::parse_wo_compile(Box::leak(text.to_string().into_boxed_str())) else { continue };
+            let vars: Vec<String> = fx.var_names().to_vec(); let nv = vars.len();
+            let f = fx.eval(&symvals(nv)).unwrap();
+            for (deep, second) in [(false, false), (true, false), (ti % 2 == 0, true)] {
+                let base = if deep { Prog::Deep(text.clone()) } else { Prog::Flat(text.clone()) };
+                let (tb2, vars2, f2) = (tb.clone(), vars.clone(), f.clone());
+                let idxs = if second { vec![0, 0] } else { vec![0] };
+                cs.add(&tb, Prog::Partial(idxs, 0, Box::new(base)), vec![Query::Vars, Query::Eval(nv)], format!("unary chain: d{}/dx {text}", if second { "2" } else { "" }), "unary-chain-over-a-sign", 3, move |obs| {
+                    match (&obs[0], &obs[1]) {
+                        (Obs::S(v), Obs::T(d)) => {
+                            if *v != vars2 { return (Some(false), format!("variables {v:?} vs {vars2:?}")) }
+                            for pt in points(vars2.len()) {
+                                let want = if second { let h = 1e-4; let ev = |k: f64| { let mut p = pt.clone(); p[0] += k; interp(&f2, &tb2, &p) };
+                                        let d2 = (ev(h) - 2.0 * ev(0.0) + ev(-h)) / (h * h); let d2b = (ev(2.0 * h) - 2.0 * ev(0.0) + ev(-2.0 * h)) / (4.0 * h * h);
+                                        if d2.is_finite() && d2b.is_finite() && (d2 - d2b).abs() <= 1e-3 * (1.0 + d2.abs()) && d2.abs() < 1e4 { Some(d2) } else { None } }
+                                    else { num_partial(&f2, &tb2, &pt, 0) };
+                                if let Some(want) = want { let got = interp(d, &tb2, &pt); if !got.is_finite() || (got - want).abs() > 2e-3 * (1.0 + want.abs()) { return (Some(false), format!("at {pt:?}: derivative expression gives {got}, differences of the reference give {want}")) } }
+                            }
+                            (Some(true), String::new())
+                        }
+                        _ => (Some(false), format!("{} / {}", pretty_obs(&obs[0]), pretty_obs(&obs[1]))),
+                    }
+                });
+            }
+        }
     }
     for text in ["abs(x)", "min(x, y)", "floor(x)+x"] {
         cs.add(&tb, Prog::Partial(vec![0], 0, Box::new(Prog::Flat(text.into()))), vec![Query::Vars], format!("corpus: d/dv0 {text}"), "missing-rule", 3, |obs| (Some(obs[0] == Obs::E), pretty_obs(&obs[0])));
